@@ -18,9 +18,9 @@ from nflows import transforms as T
 
 PROPERTY = "C08"
 RULE = (
-    "(1) every well-formed wrapper program with <=5 (thorough <=7) nodes over 5 non-commuting leaves {2x+1, -0.5x+3, LeakyReLU(0.2), ReversePermutation(3), "
-    "MaskedAffineAutoregressive(3) with pattern weights}, forward and inverse, on a 2x3 batch; (2) MultiscaleCompositeTransform for every input shape with <=3 non-batch "
-    "dims of sizes 2..5, every split_dim <= ndim, 1..3 stages (stage k = x -> prime_k * x + 10^(k+1)), incl. the combinations its constructor must reject, plus the documented "
+    "(1) every well-formed wrapper program with <=5 (thorough <=7) nodes over 6 non-commuting leaves {2x+1, -0.5x+3, LeakyReLU(0.2), ReversePermutation(3), "
+    "MaskedAffineAutoregressive(3) with pattern weights, the same with a 2-d context}, forward and inverse, on a 2x3 batch; (2) MultiscaleCompositeTransform for every input shape with <=3 non-batch "
+    "dims of sizes 2..5, every split_dim <= ndim, 1..3 stages (stage k = x -> prime_k * x + 10^(k+1) + context value, so every stage must be handed the context), incl. the combinations its constructor must reject, plus the documented "
     "misuse errors. Non-trivial = program with >=2 leaves or a multiscale with >=2 stages."
 )
 ASSUMPTIONS = [
@@ -46,7 +46,9 @@ def leaves():
         torch.manual_seed(0)
         maf = T.MaskedAffineAutoregressiveTransform(3, 4, num_blocks=1)
         fill(maf, ("pat", 1, 0.8))
-        _LEAVES = [T.PointwiseAffineTransform(shift=1.0, scale=2.0), T.PointwiseAffineTransform(shift=3.0, scale=-0.5), T.LeakyReLU(0.2), T.ReversePermutation(3), maf.double().eval()]
+        mafc = T.MaskedAffineAutoregressiveTransform(3, 4, context_features=2, num_blocks=1)
+        fill(mafc, ("pat", 2, 0.8))
+        _LEAVES = [T.PointwiseAffineTransform(shift=1.0, scale=2.0), T.PointwiseAffineTransform(shift=3.0, scale=-0.5), T.LeakyReLU(0.2), T.ReversePermutation(3), maf.double().eval(), mafc.double().eval()]
         for l in _LEAVES:
             l.double()
     return _LEAVES
@@ -55,7 +57,7 @@ def leaves():
 def programs(n):
     """all ASTs with exactly n nodes: ("L", i) | ("I", child) | ("C", [children])"""
     if n == 1:
-        return [("L", i) for i in range(5)]
+        return [("L", i) for i in range(6)]
     out = []
     for c in programs_cached(n - 1):
         out.append(("I", c))
@@ -89,7 +91,7 @@ def build(ast):
 def interp(ast, x, inverse):
     if ast[0] == "L":
         l = leaves()[ast[1]]
-        return l.inverse(x) if inverse else l.forward(x)
+        return l.inverse(x, CTX) if inverse else l.forward(x, CTX)
     if ast[0] == "I":
         return interp(ast[1], x, not inverse)
     parts = ast[1][::-1] if inverse else ast[1]
@@ -110,13 +112,14 @@ def nleaves(ast):
 
 def show(ast):
     if ast[0] == "L":
-        return ["2x+1", "-x/2+3", "LReLU", "Rev", "MAF"][ast[1]]
+        return ["2x+1", "-x/2+3", "LReLU", "Rev", "MAF", "MAFctx"][ast[1]]
     if ast[0] == "I":
         return "Inv(%s)" % show(ast[1])
     return "Comp[%s]" % ", ".join(show(c) for c in ast[1])
 
 
 X = torch.tensor([[0.3, -1.7, 2.2], [-0.4, 0.9, -3.1]], dtype=torch.float64)
+CTX = torch.tensor([[0.7, -0.2], [-1.3, 0.4]], dtype=torch.float64)
 
 
 def check_program(ast):
@@ -130,7 +133,7 @@ def check_program(ast):
             except Exception:
                 continue  # the hand-chained evaluation itself is undefined (cannot happen with these leaves)
             try:
-                y, l = m.inverse(X) if inverse else m.forward(X)
+                y, l = m.inverse(X, CTX) if inverse else m.forward(X, CTX)
             except Exception as e:
                 out.append((name, "raises %s" % type(e).__name__, "%s %s raised %s although the hand-chained evaluation succeeds" % (show(ast), name, type(e).__name__)))
                 continue
@@ -142,6 +145,25 @@ def check_program(ast):
 
 
 # ----------------------------------------------------------------------------- multiscale routing model
+
+
+class CtxAffine(T.Transform):
+    """stage transform y = p*x + s + c with c = context[:, 0] (integer valued): every stage must receive the context"""
+
+    def __init__(self, p, s_):
+        super().__init__()
+        self.p, self.s_ = p, s_
+
+    def _c(self, x, context):
+        return context[:, 0].reshape(-1, *([1] * (x.dim() - 1)))
+
+    def forward(self, x, context=None):
+        n = x[0].numel()
+        return x * self.p + self.s_ + self._c(x, context), x.new_full((x.shape[0],), n * math.log(self.p))
+
+    def inverse(self, y, context=None):
+        n = y[0].numel()
+        return (y - self.s_ - self._c(y, context)) / self.p, y.new_full((y.shape[0],), -n * math.log(self.p))
 
 
 def chunk2(nested, dim):
@@ -196,7 +218,7 @@ def check_multiscale(case):
         ms = T.MultiscaleCompositeTransform(num_transforms=stages, split_dim=split_dim)
         cur = shape
         for k in range(stages):
-            t = T.PointwiseAffineTransform(shift=10.0 ** (k + 1), scale=PRIMES[k])
+            t = CtxAffine(PRIMES[k], 10.0 ** (k + 1))
             nxt = ms.add_transform(t, cur)
             if k != stages - 1:
                 exp_hidden = shape_after_split(cur, sd)[1]
@@ -223,6 +245,7 @@ def check_multiscale(case):
     D = int(np.prod(shape))
     B = 2
     x = torch.arange(1, B * D + 1, dtype=torch.float64).reshape(B, *shape)
+    ctx = torch.tensor([[1000.0, 5.0], [2000.0, 7.0]], dtype=torch.float64)
     # reference on nested lists, per batch row
     ref_rows, ref_ld = [], []
     for b in range(B):
@@ -231,7 +254,7 @@ def check_multiscale(case):
         ld = 0.0
         for k in range(stages):
             n = len(flat(hid))
-            hid = mapn(lambda v, k=k: v * PRIMES[k] + 10.0 ** (k + 1), hid)
+            hid = mapn(lambda v, k=k, b=b: v * PRIMES[k] + 10.0 ** (k + 1) + float(ctx[b, 0]), hid)
             ld += n * math.log(PRIMES[k])
             if k != stages - 1:
                 o, hid = chunk2(hid, sd)
@@ -242,7 +265,7 @@ def check_multiscale(case):
         ref_ld.append(ld)
     with torch.no_grad():
         try:
-            y, ld = ms(x)
+            y, ld = ms(x, ctx)
         except Exception as e:
             V("forward", "raises %s" % type(e).__name__, "forward on shape %s raised %s: %s" % (shape, type(e).__name__, str(e)[:100]))
             return out
@@ -255,7 +278,7 @@ def check_multiscale(case):
         V("forward", "logabsdet differs from the per-stage coordinate counts", "logabsdet %s, model %s" % (ld.tolist(), ref_ld))
     with torch.no_grad():
         try:
-            xr, ldi = ms.inverse(y)
+            xr, ldi = ms.inverse(y, ctx)
         except Exception as e:
             V("inverse", "raises %s" % type(e).__name__, "inverse(forward(x)) on shape %s raised %s: %s" % (shape, type(e).__name__, str(e)[:100]))
             return out
